@@ -359,13 +359,34 @@ static void unit_loop()
         delete proxy; proxy = new vsim_proxy(&eng, true);      // a fresh module for every recording
         std::vector<std::string> keys; std::string verdict;
         std::string extra = (cmd == "HC") ? unhex(a[3]) : std::string();
-        if (!record_block(a[0], unhex(a[1]), unhex(a[2]), (cmd == "HC") ? &extra : NULL, keys, verdict)) out = "unknown-kind";
+        std::ostringstream lg;
+        if (cmd == "HK") {
+          // the prelude is read quietly; the log of init() itself is kept: the keywords it ECHOES ("# keyword = value")
+          cvm::clear_error();
+          if (a[1] != "-") cvm::main()->read_config_string(unhex(a[1]));
+          proxy->logos = &lg;
+        }
+        if (!record_block(a[0], (cmd == "HK") ? std::string() : unhex(a[1]), unhex(a[2]), (cmd == "HC") ? &extra : NULL, keys, verdict)) out = "unknown-kind";
         else if (cmd == "HC") out = verdict;
         else {
           std::sort(keys.begin(), keys.end());
           out = verdict;
           for (auto &k : keys) out += " " + hex(k);
+          // echoed keywords of the object itself = the "#" lines with the smallest indentation
+          std::istringstream ls(lg.str());
+          std::string l; size_t best = std::string::npos; std::vector<std::pair<size_t, std::string> > ech;
+          while (std::getline(ls, l)) {
+            size_t i = l.find_first_not_of(' ');
+            if (i == std::string::npos || l[i] != '#' || i + 2 >= l.size()) continue;
+            size_t e = l.find(" = ", i);
+            if (e == std::string::npos) continue;
+            ech.push_back(std::make_pair(i, l.substr(i + 2, e - i - 2)));
+            if (i < best) best = i;
+          }
+          out += " |";
+          for (auto &pr : ech) if (pr.first == best) out += " " + hex(pr.second);
         }
+        proxy->logos = NULL;
       } else if (cmd == "IX") {
         // colvarmodule::read_index_file on a file with the given bytes
         static int ixn = 0;
